@@ -757,6 +757,105 @@ class WorkerRun(Unit):
                           z3.And(z3.Not(self.init_ok), p == self.err, z3.BoolVal(len(lg) == 1 and lg[0][0] == 'put'), lg[0][1] == NONE if len(lg) == 1 else z3.BoolVal(False)))
 
 
-UNITS = [SimpleStart, ThreadStart, SimpleStop, ThreadStop, CompoundStart, EnsembleStart, SwitchStart, CompoundStop, SwitchStop, SequentialStop,
+
+class EnterServer(Unit):
+    """_enter_server (shared by Server.__enter__ and AsyncServer.__aenter__): all-or-nothing at the server level.  The servlet is started FIRST, with queues
+    of the types it declares; if that raises, nothing else was started (no helper thread to clean up: the servlet's own start is all-or-nothing, units above).
+    Then: with a process input queue, requests go through an unbounded buffer drained by the onboarding thread (unit _onboard_input); the gather thread runs
+    self._gather_output with the given arguments; both are started, recorded on the server for __exit__ to join."""
+    prop = 'C11'
+    file = FV
+    qual = '_enter_server'
+    variant = 'process input queue'
+    in_type = 'process'
+    inlined_defs = ()
+    canaries = (('gather thread created but never started', '    self._gather_thread.start()', '    pass', ''),
+                ('helper threads started before the servlet (a failing servlet start would leave them running)', '    self.servlet.start(self._q_in, self._q_out)\n', '', ''),
+                ('requests bypass the onboarding buffer', '        self._input_buffer = queue.SimpleQueue()', '        self._input_buffer = self._q_in', ''))
+
+    def setup(self, ex):
+        st = St()
+        st.ghost['log'] = ()
+        unit = self
+
+        def mkq(kind):
+            def f(e, s, a, k, n):
+                q = Rec(e, kind)
+                q.kind = kind
+                s = s.fork()
+                s.ghost['log'] = s.ghost['log'] + (('queue', kind, q),)
+                return [('ok', s, q)]
+            return Fn(f, name=kind)
+        ex.globals['_SimpleThreadQueue'] = mkq('thread')
+        ex.globals['_SimpleProcessQueue'] = mkq('process')
+        ex.globals['queue.SimpleQueue'] = mkq('simple')
+        ex.globals['Thread'] = ThreadCtor()
+
+        def isinstance_(e, s, a, k, n):
+            q = unbox_handle(e, a[0])
+            c = unbox_handle(e, a[1])
+            return [('ok', s, z3.BoolVal(getattr(q, 'kind', None) == getattr(c, 'name', None)))]
+        ex.globals['isinstance'] = Fn(isinstance_)
+        self.start_ok = z3.Bool('servlet_start_ok')
+
+        def start(e, s, a, k, n):
+            s = s.fork()
+            s.ghost['log'] = s.ghost['log'] + (('servlet.start', [unbox_handle(e, x) for x in a]),)
+            s1 = s.fork().assume(self.start_ok)
+            exc = fresh('init_error')
+            s2 = s.fork().assume(z3.Not(self.start_ok), V.isinst(exc, 'Exception'), *V.cls_facts(exc))
+            s2.ghost['start_exc'] = exc
+            return [('ok', s1, NONE), ('raise', s2, exc)]
+        self.out_type = z3.String('output_queue_type')
+        servlet = Rec(ex, 'servlet', immutable=True, methods={'start': Fn(start)}).init(st, input_queue_type=z3.StringVal(self.in_type), output_queue_type=self.out_type)
+        self.gather = z3.Const('bound_method_self._gather_output', Val)
+        self.gargs = z3.Const('gather_args', Val)
+        self.me = Rec(ex, 'self').init(st, servlet=servlet, _gather_output=self.gather, __class__=Rec(ex, 'cls', immutable=True).init(st, __name__=z3.StringVal('Server')))
+        st.env.update(self=self.me, gather_args=self.gargs)
+        st.assume(z3.Or(self.out_type == z3.StringVal('thread'), self.out_type == z3.StringVal('process')), V.truthy(self.gargs), *[])
+        return st
+
+    def on_thread_start(self, ex, st, t, node):
+        st.ghost['log'] = st.ghost['log'] + (('thread.start', t),)
+
+    def post(self, ex, outs):
+        from pyvc.models import ThreadObj
+        for k, s, p in outs:
+            log = s.ghost['log']
+            kinds = [x[0] for x in log]
+            starts = [x for x in log if x[0] == 'servlet.start']
+            threads = [x[1] for x in log if x[0] == 'thread.start']
+            queues = [x for x in log if x[0] == 'queue']
+            if k == 'raise':
+                ex.oblige(s, 'exit(raise): only the servlet\'s own start failure, and then NO helper thread was started (nothing to clean up at this level)',
+                          z3.And(z3.BoolVal(len(starts) == 1 and not threads and kinds.index('servlet.start') == len(kinds) - 1), p == s.ghost.get('start_exc', NONE)))
+                continue
+            ok = len(starts) == 1 and len(starts[0][1]) == 2
+            qin, qout = (starts[0][1] if ok else (None, None))
+            first_thread = kinds.index('thread.start') if 'thread.start' in kinds else len(kinds)
+            ok = ok and kinds.index('servlet.start') < first_thread and qin is unbox_handle(ex, self.me.get(s, '_q_in')) and qout is unbox_handle(ex, self.me.get(s, '_q_out'))
+            gt = unbox_handle(ex, self.me.get(s, '_gather_thread'))
+            ob = unbox_handle(ex, self.me.get(s, '_onboard_thread'))
+            ib = unbox_handle(ex, self.me.get(s, '_input_buffer'))
+            if self.in_type == 'thread':
+                shape = ok and getattr(qin, 'kind', None) == 'thread' and ib is qin and len(threads) == 1 and threads[0] is gt
+                onboard = z3.BoolVal(z3.is_expr(ob) and z3.is_true(z3.simplify(ob == NONE)) if z3.is_expr(ob) else False)
+            else:
+                shape = ok and getattr(qin, 'kind', None) == 'process' and getattr(ib, 'kind', None) == 'simple' and len(threads) == 2 and threads[0] is ob and threads[1] is gt
+                onboard = z3.BoolVal(shape and isinstance(ob, ThreadObj) and isinstance(ob.target, Closure) and ob.target.node.name == '_onboard_input')
+            ex.oblige(s, 'exit: the servlet was started first, once, on this server\'s own input/output queues of the declared types; then '
+                         + ('requests go straight to the thread input queue (no onboarding thread)' if self.in_type == 'thread' else 'the onboarding thread (local _onboard_input) drains an unbounded buffer into the process input queue')
+                         + '; the gather thread runs self._gather_output(*gather_args); every helper thread created was started and is recorded on the server',
+                      z3.And(z3.BoolVal(bool(shape)), onboard, z3.BoolVal(isinstance(gt, ThreadObj)), box(ex, gt.target) == self.gather if isinstance(gt, ThreadObj) else z3.BoolVal(False),
+                             box(ex, gt.args) == self.gargs if isinstance(gt, ThreadObj) else z3.BoolVal(False),
+                             z3.BoolVal(getattr(qout, 'kind', None) in ('thread', 'process')), (self.out_type == z3.StringVal(getattr(qout, 'kind', '') or ''))))
+
+
+class EnterServerThreadQ(EnterServer):
+    variant = 'thread input queue'
+    in_type = 'thread'
+    canaries = ()
+
+UNITS = [EnterServer, EnterServerThreadQ, SimpleStart, ThreadStart, SimpleStop, ThreadStop, CompoundStart, EnsembleStart, SwitchStart, CompoundStop, SwitchStop, SequentialStop,
          ServerExit, ServerExitThreadQ, AServerExit, OnboardUnit, WorkerRun]
 SCENARIOS = [('', 'replay/scenarios/c11_init_failure_cleanup.py'), ('', 'replay/scenarios/c11_abandoned_stream_exit.py')]
